@@ -378,6 +378,42 @@ func c02(r *gen.Rng, tier string, shard, nshard int) {
 		}
 	}
 	w.Extra["hdr1_hdr2_exhaustive"] = true
+	if shard == 0 {
+		// Type.New() for every type nibble (the stream decoder calls it on whatever the peer sends first)
+		for n := 0; n < 16; n++ {
+			res := func() (res string) {
+				defer func() {
+					if x := recover(); x != nil {
+						res = "panic"
+					}
+				}()
+				if _, err := packet.Type(n).New(); err != nil {
+					return "err"
+				}
+				return "ok"
+			}()
+			w.Op(fmt.Sprintf("codec typenew %d", n), res)
+			if res == "panic" {
+				w.Monitor("C02", "panic/type-new", fmt.Sprintf("Type(%d).New() panicked", n), []string{fmt.Sprintf("codec typenew %d", n)})
+			}
+		}
+		// every CONNECT flags byte with a body that is consistent with it (will fields iff the will flag, user name /
+		// password iff their flags): the reference decoder decides which of the 256 combinations are legal
+		for fl := 0; fl < 256; fl++ {
+			body := []byte{0, 4, 'M', 'Q', 'T', 'T', 4, byte(fl), 0, 10, 0, 1, 'c'}
+			if fl&0x04 != 0 {
+				body = append(body, 0, 1, 'w', 0, 1, 'p')
+			}
+			if fl&0x80 != 0 {
+				body = append(body, 0, 1, 'u')
+			}
+			if fl&0x40 != 0 {
+				body = append(body, 0, 1, 's')
+			}
+			pkt := append([]byte{0x10, byte(len(body))}, body...)
+			c02Bytes(r, packet.CONNECT, pkt, "connect-flags")
+		}
+	}
 	// one valid packet whose remaining length needs four bytes (the header enumeration above only reaches the body-less cases)
 	if shard == 0 {
 		if p, ok := r.PacketWithRL(packet.PUBLISH, 2097152); ok {
